@@ -584,8 +584,13 @@ where
     type Value = T;
 
     fn try_write(&self) -> Option<impl UntrackableGuard<Target = Self::Value>> {
-        self.writer()
-            .map(|writer| WriteGuard::new(self.clone(), writer))
+        // the raw writer notifies the root's `children` trigger on its own, and would go on
+        // doing so after `untrack()` of the returned guard (e.g. when `maybe_update`
+        // reports that nothing changed): untrack it and notify the triggers of the root
+        // path instead, `children` (the readers of the store itself) before `this`
+        let mut writer = self.writer()?;
+        writer.untrack();
+        Some(WriteGuard::new(self.triggers_for_current_path(), writer))
     }
 
     fn try_write_untracked(
@@ -748,7 +753,10 @@ where
     type Value = T;
 
     fn try_write(&self) -> Option<impl UntrackableGuard<Target = Self::Value>> {
-        self.writer().map(|writer| WriteGuard::new(*self, writer))
+        // see `Write for ArcStore`
+        let mut writer = self.writer()?;
+        writer.untrack();
+        Some(WriteGuard::new(self.triggers_for_current_path(), writer))
     }
 
     fn try_write_untracked(
